@@ -2,6 +2,6 @@
    sumbool, sumor map to OCaml's; nat, positive, N, Z stay inductive. *)
 Require Extraction.
 Require Import ExtrOcamlBasic.
-From Atlas Require Import Base.Bytes Lex.DownModel Lex.DownAlterModel.
+From Atlas Require Import Base.Bytes Lex.DownModel Lex.DownAlterModel Lex.DownLayoutModel.
 Extraction Language OCaml.
-Extraction "model.ml" SetReversible has_reverse ReverseStmts reverse up_body down_body goose_file dbmate_file liquibase_file line_scan line_closed no_nl alterTable_mysql alterTable_postgres reverse_objects.
+Extraction "model.ml" SetReversible has_reverse ReverseStmts reverse up_body down_body goose_file dbmate_file liquibase_file line_scan line_closed no_nl alterTable_mysql alterTable_postgres reverse_objects line_scan_fast liquibase_down_fast lq_cmd_ok_fast goose_down_stmts dbmate_down_stmts.
